@@ -14,6 +14,8 @@ RULES = {
     'FIFO-END': 'element buffers, metadata containers and queues add at one end and take from the other (FIFO queue classes)',
     'SWAP-ATOMIC': 'a flushed buffer is read and reset before it is emitted: no suspension and no (re-entrant) emission lies '
                    'between the read and the reset',
+    'REVERSED-STACK': 'a local list reversed so that it can be consumed with pop() is consumed only with pop() (any other use sees '
+                      'the elements in reverse order)',
     'FRESH-READ': 'what an emission is built from a field is read after the last update of that field on the path (no stale '
                   'snapshot taken before the element at hand was stored)',
     'TIMEDELTA-TOTAL': 'durations are converted with total_seconds(), never with the .seconds/.microseconds components',
@@ -408,6 +410,48 @@ def check_swap_atomic(ctx, R, classes):
                      'self.%s is read and emitted, and only afterwards reset: elements that arrive while the emission is in '
                      'progress (during a suspension, or re-entrantly through a feedback edge) are lost' % f,
                      ctx.where(fn, line), fmt_path(evs) if evs else None)
+
+
+def check_reversed_stack(ctx, R, classes):
+    for cls in classes:
+        for mname, fn in cls.methods.items():
+            rev = {}
+            for n in own_nodes(fn.node):
+                if isinstance(n, ast.Assign) and len(n.targets) == 1 and isinstance(n.targets[0], ast.Name):
+                    v = n.value
+                    is_rev = (isinstance(v, ast.Subscript) and isinstance(v.slice, ast.Slice) and v.slice.step is not None
+                              and src(v.slice.step) == '-1' and v.slice.lower is None and v.slice.upper is None) or \
+                             (isinstance(v, ast.Call) and src(v.func) == 'list' and v.args and isinstance(v.args[0], ast.Call)
+                              and src(v.args[0].func) == 'reversed')
+                    if is_rev:
+                        rev[n.targets[0].id] = n
+            for name, defn in rev.items():
+                bad = None
+                uses = 0
+                parents = {}
+                for n in ast.walk(fn.node):
+                    for c in ast.iter_child_nodes(n):
+                        parents[id(c)] = n
+                for n in own_nodes(fn.node):
+                    if isinstance(n, ast.Name) and n.id == name and isinstance(n.ctx, ast.Load):
+                        uses += 1
+                        par = parents.get(id(n))
+                        ok = False
+                        if isinstance(par, ast.Attribute) and par.attr == 'pop':
+                            call = parents.get(id(par))
+                            ok = isinstance(call, ast.Call) and not call.args and not call.keywords
+                        elif isinstance(par, (ast.While, ast.If)) and par.test is n:
+                            ok = True
+                        elif isinstance(par, ast.UnaryOp) and isinstance(par.op, ast.Not):
+                            ok = True
+                        elif isinstance(par, ast.Call) and src(par.func) == 'len':
+                            ok = True
+                        if not ok:
+                            bad = n
+                R.ob('REVERSED-STACK', ctx.construct(fn), name, bad is None and uses > 0,
+                     'the reversed copy `%s` is used other than through %s.pop(): that use sees the elements in reverse order (%s)'
+                     % (name, name, src(parents.get(id(bad))) [:50] if bad is not None else ''),
+                     ctx.where(fn, bad.lineno if bad is not None else defn.lineno))
 
 
 def check_fresh_read(ctx, R, classes):
